@@ -112,3 +112,54 @@ def run(P, rep, rule="R-MATH"):
         else:
             rep.ok(rule, site, where, "integer path first (to_integer x%d), exact op %s, float path only as fallback" % (n_int, sorted(real_ops & allowed)))
     rep.analysed[rule + ".filters"] = found
+
+
+# ---------------------------------------------------------------------------------------
+# R-COERCE: string operands become numbers by str::parse alone
+
+def run_coerce(P, rep, rule="R-COERCE"):
+    """ScalarCow::to_integer / to_float: in the arm for a string scalar the answer is `x.parse::<i64|f64>().ok()` — one parse call,
+    its `.ok()`, and no other condition (no length/prefix pre-check that could make a numeric string a non-number for the integer path
+    while the float path still accepts it)."""
+    from pathsel import discr_switches, arm_region
+    from origins import SelfOrigins
+    adt = P.adts.get("liquid_core::model::scalar::ScalarCowEnum")
+    if not adt:
+        rep.anchor_missing(rule, "ScalarCowEnum")
+        return
+    names = [v["name"] for v in adt["variants"]]
+    if "Str" not in names:
+        rep.anchor_missing(rule, "ScalarCowEnum::Str")
+        return
+    vi = names.index("Str")
+    for meth, ty in (("to_integer", "i64"), ("to_float", "f64")):
+        fns = P.by_key("<liquid_core::model::scalar::ScalarCow>::" + meth)
+        site = "ScalarCow::" + meth + " Str arm"
+        if len(fns) != 1:
+            rep.anchor_missing(rule, "ScalarCow::" + meth)
+            continue
+        fn = fns[0]
+        so = SelfOrigins(P, fn)
+        sw = discr_switches(P, fn, lambda pl: so.place_origin(pl) is not None)
+        if not sw:
+            rep.viol(rule, site, P.where(fn), "no match on the scalar's kind found")
+            continue
+        regs = [arm_region(P, fn, v, sw) for v in range(len(names))]
+        common = set(regs[0])
+        for r in regs[1:]:
+            common &= r
+        reg = regs[vi] - common
+        calls = [fn.blocks[b]["t"] for b in sorted(reg) if fn.blocks[b]["t"]["k"] == "call" and fn.blocks[b]["t"].get("f")]
+        parses = [t for t in calls if t["f"]["id"] == "core::str::parse" or t["f"]["name"].endswith("str::parse") or t["f"]["id"].endswith("::parse")]
+        branches = [b for b in reg if fn.blocks[b]["t"]["k"] == "switch" and b not in sw]
+        others = [t["f"]["name"] for t in calls if t not in parses and t["f"]["id"].rsplit("::", 1)[1] not in ("ok", "deref", "as_str", "as_ref", "borrow")]
+        okty = any(ty in str([P.tstr(fn.crate, a) for a in t["f"].get("args", []) if isinstance(a, int)]) for t in parses)
+        if len(parses) != 1 or not okty:
+            rep.viol(rule, site, P.where(fn), "expected exactly one str::parse::<%s> in the string arm, found %d" % (ty, len(parses)))
+        elif branches:
+            rep.viol(rule, site + " condition", P.where(fn, fn.blocks[branches[0]]["t"].get("line")),
+                     "the string arm decides on something besides the parse result: a numeric string can be refused as %s" % ("an integer" if ty == "i64" else "a float"))
+        elif others:
+            rep.viol(rule, site + " via " + others[0].rsplit("::", 1)[-1], P.where(fn), "the string passes through `%s` around the parse" % others[0])
+        else:
+            rep.ok(rule, site, P.where(fn), "x.parse::<%s>().ok(), no other condition" % ty)
